@@ -20,7 +20,7 @@ enum Ty {
 }
 
 /// (short / source spelling, fully qualified spelling)
-const BASES: [(&str, &str); 12] = [
+const BASES: [(&str, &str); 14] = [
     ("u8", "u8"),
     ("u32", "u32"),
     ("i64", "i64"),
@@ -33,9 +33,12 @@ const BASES: [(&str, &str); 12] = [
     ("usertypes::Plain", "usertypes::Plain"),
     ("usertypes::inner::Deep", "usertypes::inner::Deep"),
     ("Box<str>", "alloc::boxed::Box<str>"),
+    // user types named like standard types (must keep their path)
+    ("usertypes::string::String", "usertypes::string::String"),
+    ("usertypes::vec::Vec", "usertypes::vec::Vec"),
 ];
 
-const UNARY: [(&str, &str); 10] = [
+const UNARY: [(&str, &str); 12] = [
     ("Box<{}>", "alloc::boxed::Box<{}>"),
     ("Vec<{}>", "alloc::vec::Vec<{}>"),
     ("Option<{}>", "core::option::Option<{}>"),
@@ -46,6 +49,8 @@ const UNARY: [(&str, &str); 10] = [
     ("[{}; 3]", "[{}; 3]"),
     ("Box<[{}]>", "alloc::boxed::Box<[{}]>"),
     ("usertypes::Wrap<{}>", "usertypes::Wrap<{}>"),
+    ("usertypes::option::Option<{}>", "usertypes::option::Option<{}>"),
+    ("usertypes::result::Result<{}, u8>", "usertypes::result::Result<{}, u8>"),
 ];
 
 const BINARY: [(&str, &str); 3] = [
@@ -319,7 +324,7 @@ pub fn main(args: &Args, ext: &Externs) -> i32 {
     report
         .cov("evaluations", n as u64 + lookups_ok + lookups_bad)
         .cov("distinct_nontrivial", types.iter().filter(|t| t.depth() > 0).count() as u64)
-        .cov("rule", "every type of the grammar {12 bases} x {Box Vec Option Result<_,String> Result<u8,_> (_,) (_,u8) [_;3] Box<[_]> usertypes::Wrap} to unary depth 2, plus binary constructors {Result, tuple, usertypes::Pair} over three bases (thorough: inner depth 1, and unary depth 3 over four bases); per type: the recorded name must type-check as the identity's return type (rustc decides), and 8 spellings (short, qualified, two alternating mixtures, without spaces, two with extra spaces, the compiler's type_name) plus the typed lookup must find the registered entry; non-trivial = types with at least one constructor, all distinct")
+        .cov("rule", "every type of the grammar {14 bases incl. user types named like String / Vec} x {Box Vec Option Result<_,String> Result<u8,_> (_,) (_,u8) [_;3] Box<[_]> usertypes::Wrap usertypes::option::Option usertypes::result::Result} to unary depth 2, plus binary constructors {Result, tuple, usertypes::Pair} over three bases (thorough: inner depth 1, and unary depth 3 over four bases); per type: the recorded name must type-check as the identity's return type (rustc decides), and 8 spellings (short, qualified, two alternating mixtures, without spaces, two with extra spaces, the compiler's type_name) plus the typed lookup must find the registered entry; non-trivial = types with at least one constructor, all distinct")
         .cov("samples", samples)
         .cov("exhaustive", true)
         .cov("types", n as u64)
